@@ -485,11 +485,14 @@ int main(int argc, char** argv) {
     out.open(argv[3]);
     if (argc > 5) {
         std::string k, p;
-        if (load_replay(argv[5], k, p)) run_case(out, k, p);
+        // a replay of another unit's case (the replay file is handed to every unit) is not ours
+        if (load_replay(argv[5], k, p) && k == "hist") run_case(out, k, p);
         out.close();
         return 0;
     }
-    for (auto& c : load_corpus(argc > 4 ? argv[4] : NULL)) run_case(out, c.first, c.second);
+    // the corpus directory is shared by all units of the property: take only this unit's kind
+    for (auto& c : load_corpus(argc > 4 ? argv[4] : NULL))
+        if (c.first == "hist") run_case(out, c.first, c.second);
     Rng g(seed);
     small_cases(out);
     long N = thorough ? 200000 : 4000;
